@@ -4,7 +4,7 @@ CHECK = dict(
     property='C20', level='exploration',
     families=[('notif', 1.0), ('subs', 0.008)],     # a few full-server runs: the organic monitor
     budget=dict(quick=30, thorough=600), max_runs=dict(quick=2_000_000, thorough=50_000_000),
-    rule=('each evaluation = one simulated run of the real Notifications object driven by two concurrent '
+    rule=('start() runs in the session manager\'s own task with a slow initialising call while both reporters go on reporting; each evaluation = one simulated run of the real Notifications object driven by two concurrent '
           'reporter tasks (block processor, mempool tracker) on the virtual-time loop, their calls produced by '
           'a scheduler-driven random walk of a six-variable abstract model of the surrounding system (daemon '
           'height, processor height, flushed height, pending fork point, refresh in flight; intermediate '
